@@ -6,6 +6,9 @@ under /dev/shm and runs the quick check of the property they target against that
     tools/mutants.py m_c02_noorder ...  selected ones
     tools/mutants.py --patch FILE --property C13 [--tier quick]   a patch made with `git diff -- src`
     tools/mutants.py --seeded           every /verif/seeded/<id>/patch.diff against the property in its meta.json
+    tools/mutants.py --benign [C02,C13] every /verif/benign/<id>/patch<k>.diff (behaviour-preserving refactorings written
+                                        by sub-agents) against the given properties (default: all four); here the
+                                        expected outcome is exit 0 - QUIET - and anything else is a false alarm
 
 Nothing is written into /repo or into /verif/evidence, /verif/replays: outputs go to the scratch directory,
 which is removed afterwards.  Exit code 0 when every mutant was detected (check exit 1), 1 otherwise.
@@ -56,6 +59,8 @@ MUTANTS = [
      'fallback to FCFS")\n            return self.fcfs\n\n        # log solver',
      'fallback to FCFS")\n            return self.fcfs()\n\n        # log solver'),
     ("m_c13_except", "C13", C, "        except pulp.PulpSolverError:", "        except ValueError:"),
+    ("m_c13_exc_args", "C13", C, "        except pulp.PulpSolverError:\n            logging.warning(\n                \"POA: failed to solve problem using MILP approach, fallback to FCFS\"\n            )",
+     "        except pulp.PulpSolverError as e:\n            logging.warning(\n                \"POA: failed to solve problem using MILP approach (%s), fallback to FCFS\" % e.args[0]\n            )"),
     ("m_c13_status", "C13", C, "        if problem.status != pulp.LpStatusOptimal:",
      "        if problem.status == pulp.LpStatusInfeasible:"),
     ("m_c13_status_notsolved", "C13", C, "        if problem.status != pulp.LpStatusOptimal:",
@@ -84,6 +89,14 @@ MUTANTS = [
       "        except pulp.PulpSolverError:\n            _SOLVER_BROKEN.append(True)\n"]),
     ("m_c02_twodigit", "C02", C, '                i, order = map(int, name.split("_")[1:])',
      "                i, order = int(name[2]), int(name[-1])"),
+    ("m_c02_size_shortcut", "C02", C,
+     "        # return all non-pseudoknotted if the graph is empty\n        if not graph:\n            return self.__make_dot_bracket(regions, [0 for _ in range(len(regions))])\n\n        # determine maximum",
+     "        # return all non-pseudoknotted if the graph is empty\n        if not graph:\n            return self.__make_dot_bracket(regions, [0 for _ in range(len(regions))])\n        if len(regions) > 40:\n            return self.fcfs  # 'too big for the MILP'\n\n        # determine maximum"),
+    ("m_c12_long_input_memo", "C12", C,
+     ["@dataclass\nclass BpSeq:\n",
+      "    @cached_property\n    def fcfs(self):\n"],
+     ["_LONG_FCFS = {}\n\n\n@dataclass\nclass BpSeq:\n",
+      "    @cached_property\n    def fcfs(self):\n        if len(self.entries) > 200:\n            key = (len(self.entries), len(self.pairs))\n            if key not in _LONG_FCFS:\n                _LONG_FCFS[key] = self._fcfs()\n            return _LONG_FCFS[key]\n        return self._fcfs()\n\n    def _fcfs(self):\n"]),
     ("m_c02_order_last_digit", "C02", C, '                i, order = map(int, name.split("_")[1:])',
      '                i, order = int(name.split("_")[1]), int(name.split("_")[2][-1])'),
     ("m_c02_deep_letter_skipped", "C02", C, '"".join(p) for p in zip(string.ascii_uppercase, string.ascii_lowercase)',
@@ -154,6 +167,16 @@ def main(argv):
         props = argv[argv.index("--property") + 1].split(",")
         tier = argv[argv.index("--tier") + 1] if "--tier" in argv else "quick"
         jobs = [("patch:" + os.path.basename(os.path.dirname(os.path.abspath(patch))), p, patch, tier) for p in props]
+    elif "--benign" in argv:
+        k = argv.index("--benign")
+        props = argv[k + 1].split(",") if len(argv) > k + 1 and argv[k + 1].startswith("C") else ["C02", "C12", "C13", "C14"]
+        jobs = []
+        base = os.path.join(VERIF, "benign")
+        for name in sorted(os.listdir(base)) if os.path.isdir(base) else []:
+            for f in sorted(os.listdir(os.path.join(base, name))):
+                if f.endswith(".diff"):
+                    for p in props:
+                        jobs.append(("benign:%s/%s" % (name, f[:-5]), p, os.path.join(base, name, f), "quick"))
     elif "--seeded" in argv:
         jobs = []
         base = os.path.join(VERIF, "seeded")
@@ -176,9 +199,11 @@ def main(argv):
                 subprocess.run(["git", "apply", os.path.abspath(what)], cwd=d, check=True)
             rc, lines, wall, tail = run_check(prop, os.path.join(d, "src"), d, tier)
             detected = rc == 1
-            ok = ok and detected
+            benign = name.startswith("benign:")
+            ok = ok and (rc == 0 if benign else detected)
             clause = [l.strip() for l in lines if l.startswith("  clause")][:1]
-            print("%-28s %s rc=%d %5.1fs %s %s" % (name, prop, rc, wall, "DETECTED" if detected else "MISSED", clause[0][:150] if clause else ""))
+            verdict = ("QUIET" if rc == 0 else "FALSE-ALARM" if rc == 1 else "HARNESS-ERROR") if benign else ("DETECTED" if detected else "MISSED")
+            print("%-28s %s rc=%d %5.1fs %s %s" % (name, prop, rc, wall, verdict, clause[0][:150] if clause else ""))
             if rc == 2:
                 print(tail)
             sys.stdout.flush()
